@@ -131,7 +131,12 @@ pub fn explore(opts: &Opts) -> Explored {
                                             let want: Vec<Float> = b.vals.iter().zip(g).map(|(x, gg)| *x - (lr as Float) * *gg).collect();
                                             if a.dims != b.dims {
                                                 msgs.push(format!("round {}: parameter {} dimensions {:?} -> {:?}", round, k, b.dims, a.dims));
-                                            } else if a.vals.iter().zip(&want).any(|(x, y)| x.to_bits() != y.to_bits()) {
+                                            } else if a.vals.iter().zip(want.iter().zip(b.vals.iter().zip(g))).any(|(x, (y, (o, gg)))| {
+                                                // one rounding of the product and one of the difference are allowed
+                                                // (a fused multiply-add or a BLAS axpy is as correct as two roundings)
+                                                let scale = (*o as f64).abs() + ((lr as Float) * *gg) as f64;
+                                                ((*x as f64) - (*y as f64)).abs() > 4.0 * (Float::EPSILON as f64) * scale.abs().max((*y as f64).abs())
+                                            }) {
                                                 msgs.push(format!("round {}: parameter {} is {} but old - lr*g = {}", round, k, fmt_vals(&a.vals), fmt_vals(&want)));
                                             }
                                             if !a.tracked {
@@ -165,7 +170,7 @@ pub fn explore(opts: &Opts) -> Explored {
         local,
         bounds: json!({"shape_pool": pool, "list_lengths": format!("1..{}", max_len), "parameter_lists": lists.len(),
                        "learning_rates": lrs, "rounds": 2, "gradient_sources": ["gradient_mut", "real backward pass"]}),
-        rule: "every tuple of parameter shapes x both gradient sources x learning rates x every subset holding a gradient in round 1 x every subset in round 2; each update compared bit-exactly with old - lr*g per element, plus dimensions, tracking flag and empty gradient slot; frozen parameters bitwise untouched".into(),
+        rule: "every tuple of parameter shapes x both gradient sources x learning rates x every subset holding a gradient in round 1 x every subset in round 2; each update compared with old - lr*g per element evaluated in the same float type (within 4 ulp: a fused multiply-add is as correct as two roundings), plus dimensions, tracking flag and empty gradient slot; frozen parameters bitwise untouched".into(),
         exhaustive: true,
         assumptions: vec![],
     }
